@@ -176,7 +176,7 @@ def check_map(run, tree, aspects=("slots", "rendered", "geometry", "inputs"), de
             kw = rec.kernel or {}
             cv = kw.get("cell_values")
             elems = [origin_of(e) for e in cv.elems] if isinstance(cv, Stack) else []
-            div = Sc.sym("DX@derived")
+            div = Sc.sym("DX@m")
             # ---------------------------------------------------------------- slots handed to the kernel
             if "slots" in aspects:
                 problems = []
@@ -254,10 +254,10 @@ def check_map(run, tree, aspects=("slots", "rendered", "geometry", "inputs"), de
                         if lr is None or lr[1] != 4:
                             problems.append("layer %d: mask %r (required: empty where the last kernel slot is NaN)" % (i, m)[:200])
                         u = item.get("unit")
-                        uname = getattr(u, "name", u)
-                        unit_scaled = isinstance(uname, tuple) and uname and uname[0] == "*"
-                        if unit_scaled != want_scaled:
-                            problems.append("layer %d: unit %r (required %s the depth unit)" % (i, uname, "multiplied by" if want_scaled else "without"))
+                        base_u = UnitTok({0: "g", 1: "m/s", 2: "K"}[i])
+                        want_u = base_u * UnitTok("m") if want_scaled else base_u
+                        if not (isinstance(u, UnitTok) and u.mono() == want_u.mono()):
+                            problems.append("layer %d: unit %r (required %s)" % (i, getattr(u, "name", u), "the layer's unit times the depth unit" if want_scaled else "the layer's own unit"))
                 run.ob("%s::rendered-layers[%s]" % (MAP, label), not problems, fi.where(), "; ".join(problems[:4]) or
                        "each layer = its own slots, reduced along the depth with its own operation (%s), scaled by the depth spacing exactly for thick "
                        "sum/nansum, masked by the NaNs of the map" % "/".join(layer_ops),
